@@ -3,6 +3,7 @@ CONSTANTS
   CommitSeqBeforeWrite = FALSE
   FreezeBeforeMetaFlush = TRUE
   ExpireOnConsumed = FALSE
+  Writable = FALSE
   AtomicRound = FALSE
   Name = {"m1", "m2"}
   MaxEntries = 3
